@@ -31,6 +31,26 @@ CLAIMED = {
          "Tables: 'alive never maps to terminal' and 'only success maps to FINISHED (for every string)' are re-proved against the current source on every run; parsing: the fold theorem shows each queried id gets the state of the last row whose id field equals it exactly and None when absent; the Lean parser is validated against the real squeue/sacct/bjobs parsers on generated outputs (padding, prefix ids, array/step rows, blank lines, malformed stream) and all exit codes.",
          "Trusted: Lean kernel; standard axioms; the translator (cross-checked against the real _state on the vocabulary + random strings every run); the hand-entered vocabulary/classification of scheduler states (Model/SchedVocab.lean); Python re.split/str.split/strip modelled for ASCII. Known finding: Slurm STOPPED (ST).",
          "DESIGN.md §6 C16"),
+ "C08": ("proof",
+         "Lean 4 theorems on the named pieces of Model/Expand.lean (exact parameter-use detection, used-parameter closure, instance naming / sharing, attached parameters) + expansion correspondence with the real load/stage path + declarative expansion monitor on the real graph",
+         "Scanner exactness, the used-parameter closure law and the sharing theorem are proved for all inputs; the whole-graph statement (nodes and edges = declarative expansion) is decided by the independent monitor on the real ExecutionGraph and by the instance-by-instance correspondence with the model; it is not yet one refinement theorem.",
+         "Trusted: Lean kernel; standard axioms; the study-level correspondence harness; Python str()/yaml/md5 (oracle inputs to the model); re semantics of the two regular expressions modelled (ASCII \\w); names are kept ASCII by the generators. Known finding D9 (name collisions when labels contain '.'): sharing theorem carries the '.'-free hypothesis." ,
+         "DESIGN.md §6 C08"),
+ "C09": ("proof",
+         "Lean 4 laws of one replacement pass (untouched text, exact replacement of an occurrence, occurrence = substring, token forms) over Model/Subst.lean + primitive correspondence (str.replace, apply_environment, WSREGEX) + pipeline correspondence of every expanded text + tokenizer-based simultaneous-substitution monitor on the real texts",
+         "The per-pass laws are proved for all strings; 'pipeline = one simultaneous substitution' and 'no defined token survives' are decided on the documented domain by the independent oracle against the real texts (hundreds of specifications per run) and by comparing every text with the model; partial: the pipeline-level equation is not yet a Lean theorem.",
+         "Trusted: Lean kernel; standard axioms; the study-level correspondence harness; Python str()/yaml/md5 (oracle inputs to the model); re semantics of the two regular expressions modelled (ASCII \\w); names are kept ASCII by the generators.",
+         "DESIGN.md §6 C09"),
+ "C10": ("proof",
+         "alphabet regenerated from make_safe_path + Lean theorems (component safety for every string, identity on safe names, one path level per component, containment) with proved counterexamples; make_safe_path correspondence on arbitrary printable strings; workspace / script-path monitor on real staged studies and generated scripts (local/slurm/lsf, +-hashws, +-usetmp)",
+         "Component safety holds for every argument (re-proved against the regenerated alphabet on every run); distinctness and containment are proved under explicit hypotheses, and the unrestricted statement is false: four known findings (sanitiser collisions, degenerate components, '/' in a label, hashws+usetmp) each with a deterministic corpus case and a match predicate keyed on the cause.",
+         "Trusted: Lean kernel; standard axioms; the study-level correspondence harness; Python str()/yaml/md5 (oracle inputs to the model); re semantics of the two regular expressions modelled (ASCII \\w); names are kept ASCII by the generators. md5 is an oracle (injectivity on a study's label strings assumed for hashed names).",
+         "DESIGN.md §6 C10"),
+ "C11": ("proof",
+         "Lean 4 proof that sorted(set) is canonical (total order on strings, uniqueness of strictly sorted lists) hence names / workspaces / attached parameters are independent of set iteration order + multi-process staging under different PYTHONHASHSEED values and roots compared with each other and with the model",
+         "The mechanism that makes expansion repeatable (every observable built from a set goes through sorted) is proved canonical for all inputs; the runtime half (real hash randomisation, pickling, different roots) is sampled: every generated specification is staged in 4 (quick) / 8 (thorough) fresh interpreters and the root-neutral serialisations, status order, Params order and script texts must coincide.",
+         "Trusted: Lean kernel; standard axioms; the study-level correspondence harness; Python str()/yaml/md5 (oracle inputs to the model); re semantics of the two regular expressions modelled (ASCII \\w); names are kept ASCII by the generators. Partial by nature: hash randomisation is runtime behaviour, abstracted as an arbitrary iteration order.",
+         "DESIGN.md §6 C11"),
  "C12": ("proof",
          "Lean 4 round-trip theorem readCsv(writeCsv t) = t for comma/newline-free fields + proved counterexamples; lock-protocol invariant over all writer/reader schedules (no torn read); byte-level correspondence of the real write_status / csvtable_to_dict with the model after every poll of conductor-level scenarios; recorded lock/file operation order vs the model's programs",
          "The reader/writer pair is proved to round-trip every table whose fields contain no comma, newline or carriage return (the unrestricted statement is false: two known findings with Lean witnesses). Concurrent reads: for every interleaving of the modelled writer and reader (including lock time-outs) a completed read returns a complete table; the modelled programs are checked against the operation order recorded from the real code on every run. Row completeness/consistency is monitored against the scripted scheduler's ledger after every poll.",
